@@ -27,7 +27,9 @@ destroy_branch(); when a reference is replaced by a new local branch the referen
 P4 (K1/K2) uncommitted work: without force, _check() runs before any destroy_*/create_* step; _check raises
 UncommittedChanges when the tree is to be destroyed and has changes, and UnsyncedBranches when the branch to be replaced
 by a reference has a different tip than the reference target.
-Does not decide: upgrade converters, nor that the copied data is equal (values); those stay not applicable.
+P5 (K1) upgrade.Convert.convert: needs_format_conversion / can_convert_format / check_conversion_target(format) all
+precede backup_bzrdir() and every converter step: an incompatible target is refused before anything is moved.
+Does not decide: the converters themselves, nor that the copied data is equal (values); those stay not applicable.
 """
 DESTROY = {"destroy_branch", "destroy_repository", "destroy_workingtree"}
 
@@ -50,6 +52,8 @@ def run(ctx):
         r = g2.reach([g2.entry], avoid=set(out), include_src=True)
         hit = sorted(set(dr) & r)
         ctx.check("P1-fetch-before-destroy-repository", where, not hit, f"when the repository is destroyed and {what}, its revisions are fetched out first", message=f"destroy_repository() can be reached although the revisions were not fetched out of self.repository ({what}): the history is lost", witness=g.show_path(g2.path([g2.entry], hit, avoid=set(out))) if hit else None)
+    whole = all(len(c.args) == 1 and not c.keywords for i in out for c in g.nodes[i].calls() if call_attr(c) == "fetch" and c.args and norm(c.args[0]) == "self.repository")
+    ctx.check("P1-fetch-before-destroy-repository", where, whole, "the fetch out of the repository that is about to be destroyed copies all of it (no revision limit)", construct="; ".join(g.nodes[i].text()[:70] for i in out), message="the revisions of the repository being destroyed are copied only up to one tip: revisions outside that ancestry (dead heads, revisions held by tags) disappear with the repository while their tags are carried over")
     into = [i for i in fetches if any(call_attr(c) == "fetch" and call_recv(c) == "repo" for c in g.nodes[i].calls())]
     g3 = g.assume({"self._create_repository": True, "self.local_branch and (not self._destroy_branch)": True})
     ctx.check("P1-fetch-before-destroy-repository", where, bool(into) and g3.always_before(into, [g3.exit])[0], "a newly created repository is filled from the branch that stays before apply() returns")
@@ -91,10 +95,24 @@ def run(ctx):
     g5 = gc.assume({"self._destroy_tree and self.tree.has_changes()": True})
     ctx.check("P4-check-before-destruction", wc, gc.exit not in g5.reachable_from_entry() and any("UncommittedChanges" in r_ for r_ in rs), "a tree with changes that is to be destroyed raises UncommittedChanges", construct="; ".join(rs))
     ctx.check("P4-check-before-destruction", wc, any("UnsyncedBranches" in r_ for r_ in rs) and "reference_branch.last_revision() != self.local_branch.last_revision()" in norm(fc), "replacing a branch by a reference to a branch with another tip raises UnsyncedBranches")
+    # ---- P5: upgrade refuses an incompatible target before anything is moved ---------------------------------------
+    UPG = "breezy/upgrade.py"
+    fu, gu, wu = fn_cfg(ctx, UPG, "Convert.convert")
+    bk = need(wu, calling(gu, attr="backup_bzrdir", recv="self.controldir"), "self.controldir.backup_bzrdir()")
+    cv = need(wu, calling(gu, attr="convert", recv="converter"), "converter.convert(...)")
+    pre = calling(gu, attr="check_conversion_target", recv="self.controldir")
+    ctx.check("P5-upgrade-preflight", wu, bool(pre), "Convert.convert calls controldir.check_conversion_target(format)", message="the upgrade no longer checks the conversion target up front: an incompatible target (rich-root -> plain, subtree -> non-subtree) is only refused by the repository converter after it has moved the repository aside, leaving the branch without a repository")
+    if pre:
+        k1_before(ctx, "P5-upgrade-preflight", wu, gu, pre, bk + cv, "the target compatibility check precedes the backup and every converter step")
+    for nm in ("needs_format_conversion", "can_convert_format"):
+        c_ = calling(gu, attr=nm, recv="self.controldir")
+        ctx.check("P5-upgrade-preflight", wu, bool(c_) and gu.always_before(c_, bk)[0], f"{nm}() is consulted before the backup")
     ctx.sample({"tag_handover": pairs, "destructive_calls": sorted({g.nodes[i].text()[:50] for i in destructive})})
 
 
 MUTANTS = [
+    Mutant("only the tip's ancestry is fetched out", RC, "                reference_branch.repository.fetch(self.repository)\n", "                reference_branch.repository.fetch(self.repository, self.local_branch.last_revision() if self.local_branch is not None else None)\n", expect="P1-fetch-before-destroy-repository"),
+    Mutant("upgrade without the target pre-flight", "breezy/upgrade.py", "        self.controldir.check_conversion_target(format)\n", "", expect="P5-upgrade-preflight"),
     Mutant("repository destroyed before the branch work", RC, "        last_revision_info = None\n        if self._destroy_reference:", "        if self._destroy_repository:\n            self.controldir.destroy_repository()\n        last_revision_info = None\n        if self._destroy_reference:", expect="P1-fetch-before-destroy-repository"),
     Mutant("revisions not fetched out when the branch becomes a reference", RC, "            if self._create_reference:\n                reference_branch.repository.fetch(self.repository)\n            elif", "            if self._create_reference and self.local_branch is None:\n                reference_branch.repository.fetch(self.repository)\n            elif", expect="P1-fetch-before-destroy-repository"),
     Mutant("tip captured after the branch is gone", RC, "            last_revision_info = self.local_branch.last_revision_info()\n            if self._create_reference:\n                self.local_branch.tags.merge_to(reference_branch.tags)\n            self.controldir.destroy_branch()\n", "            if self._create_reference:\n                self.local_branch.tags.merge_to(reference_branch.tags)\n            self.controldir.destroy_branch()\n            last_revision_info = self.local_branch.last_revision_info()\n", expect="P2-tip-captured-before-destroy-branch"),
